@@ -66,6 +66,14 @@ theorem eq_decode_partial (v v' : Value) (r : Bytes) (hw : WFV v) (hn : NoNaN v)
   cases hd
   exact ⟨eqV_refl v hw hn, eqV_refl v hw hn⟩
 
+/-- the same without a hypothesis about the decoder: the encoding of `v` does decode, to something
+    Equal to `v` in both directions, and nothing is left over -/
+theorem eq_decode_exists (v : Value) (hw : WFV v) (hn : NoNaN v) :
+    ∃ v', decode (encV v) = some (v', []) ∧ eqV v v' = true ∧ eqV v' v = true := by
+  refine ⟨v, ?_, eqV_refl v hw hn, eqV_refl v hw hn⟩
+  have := decode_encV v [] hw
+  simpa using this
+
 /-- values of different types are never equal -/
 theorem eq_types (a b : Value) (h : tag a ≠ tag b) : eqV a b = false := eqV_tag_ne a b h
 
@@ -281,6 +289,12 @@ example : mapFree (.list [.list [.dec 1, .af []], .text [1]]) = true := by decid
 example : scalar (.dsum 0 1 2 3) = true ∧ noArrNaN (.list [.f32 nan32w, .af [one32]]) = true := by decide +kernel
 example : payloadEq (.f32 0) (.f32 2147483648) ∧ ¬ payloadEq (.f32 one32) (.f32 (one32 + 1)) := by
   unfold payloadEq; decide +kernel
+example : (eqV (.map [([97], .null)]) (.map [([98], .null)]) = false ∧ cmpV (.map [([97], .null)]) (.map [([98], .null)]) = 1) :=
+  missing_key [97] .null [] [([98], .null)] (by rfl) (by rfl)
+example : cmpV (.map [([97], .null)]) (.map [([98], .null)]) = 1 ∧ cmpV (.map [([98], .null)]) (.map [([97], .null)]) = 1 :=
+  map_different_keys_both_one [([97], .null)] [([98], .null)] (by decide) (by decide) rfl ⟨[97], by simp, by simp⟩
+    (fun p hp w hw => by simp at hp; subst hp; simp [lookupKV] at hw)
+example : eqV (.list [.f32 nan32w]) (.list [.f32 nan32w]) = false ∧ noArrNaN (.list [.f32 nan32w]) = true := by decide +kernel
 example : rigid (.list [.text [1], .ai [1, 2], .list [.null]]) = true := by decide +kernel
 example : canon (.list [.f32 2147483648, .lsum 1 2 3 4]) = .list [.f32 0, .lsum 1 2 0 0] := by rfl
 example : floatFree (.map [([1], .lsum 1 1 1 1)]) = true ∧ noSNaN (.af [nan32w]) = true := by decide +kernel
